@@ -399,3 +399,31 @@ sl_harness! {
         core::mem::forget(txs); core::mem::forget(st);
     }
 }
+
+// The same lemma for the concrete histories of c03_emit_* (delta_list.rs).
+fn lemma_concrete(x: i64, y: i64, bd: i64, bb: i64, n: i64, z: i64) {
+    let st = state_before_sale(bd, Some(bb), None);
+    let txs = vec![a_buy(0, x, SALE_DAY - 9, 0), a_buy(1, y, SALE_DAY - 5, 1), a_sale(0, n, 2), a_sell(1, z, SALE_DAY + 3, 3)];
+    let r = get_superficial_loss_ratio(2, &txs, &st);
+    let hd = bd - n; let hb = bb - z; let held = hd + hb;
+    match r {
+        Ok(Some(rr)) => {
+            vcover!("superficial");
+            assert!(*rr.sfl_ratio.numerator == dec(min3(n, x + y, held), 0) && *rr.sfl_ratio.denominator == dec(n, 0));
+            assert!(rr.acb_adjust_affiliate_ratios.len() == 2);
+            let pd = rr.acb_adjust_affiliate_ratios.get(&aff(0)).unwrap();
+            let pb = rr.acb_adjust_affiliate_ratios.get(&aff(1)).unwrap();
+            assert!(*pd.numerator == dec(hd, 0) && *pd.denominator == dec(held, 0));
+            assert!(*pb.numerator == dec(hb, 0) && *pb.denominator == dec(held, 0));
+            assert!(!rr.fewer_remaining_shares_than_sfl_shares);
+            core::mem::forget(rr);
+        }
+        _ => assert!(false, "expected a superficial loss"),
+    }
+    core::mem::forget(txs); core::mem::forget(st);
+}
+sl_harness! { #[kani::unwind(6)] fn c03_lemma_concrete_histories() {
+    lemma_concrete(4, 3, 6, 5, 3, 2);
+    lemma_concrete(4, 3, 6, 5, 3, 5);
+    lemma_concrete(4, 3, 6, 5, 6, 2);
+} }
